@@ -27,6 +27,7 @@ def answer (line : String) : String :=
   | "L" :: _ => lLine ws
   | "H" :: _ => hLine ws
   | "Q" :: _ => qLine ws
+  | "QC" :: _ => qcLine ws
   | "D" :: _ => dLine ws
   | _ => "bad-op"
 
